@@ -296,6 +296,7 @@ const prelude = `(set-option :produce-models true)
 (declare-fun typeOf (Val) Int)
 (declare-fun vnn (Val) Bool)
 (declare-fun root (Ref) Ref)
+(declare-fun okind (Ref) Int)
 (declare-fun birth (Ref) Int)
 (declare-fun ftag (Ref) Int)
 (declare-fun fbase (Ref) Ref)
